@@ -14,6 +14,8 @@ hmod!(pub(crate) bfs, "bfs.rs");
 hmod!(pub(crate) explore, "explore.rs");
 #[cfg(feature = "shuttle")]
 hmod!(pub(crate) sched, "sched.rs");
+#[cfg(all(feature = "shuttle", feature = "multi-threading"))]
+hmod!(pub(crate) c15s, "c15s.rs");
 #[cfg(feature = "shuttle")]
 hmod!(pub(crate) c13s, "c13s.rs");
 #[cfg(feature = "shuttle")]
